@@ -10,7 +10,11 @@
     is_even is_odd                                    a        → bool
     sqrt cbrt                                         a        → hex / `P`
     nth_root                                          a n      → hex / `P`   (n decimal u32)
-    nt_checked_add nt_checked_sub nt_checked_mul      a b      → `S(x)` / `N`
+    nt_checked_add nt_checked_sub nt_checked_mul nt_checked_div nt_checked_rem
+    nt_checked_div_euclid nt_checked_rem_euclid       a b      → `S(x)` / `N`
+    nt_checked_neg                                    a        → `S(x)` / `N`
+    nt_wrapping_neg  nt_to_be  nt_to_le               a        → hex
+    nt_is_positive nt_is_negative (signed cfg only)   a        → bool
     nt_wrapping_add nt_wrapping_sub nt_wrapping_mul   a b      → hex
     nt_saturating_add nt_saturating_sub nt_saturating_mul a b  → hex
     nt_overflowing_add nt_overflowing_sub             a b      → `(x,bool)`
@@ -19,7 +23,7 @@
     nt_abs nt_signum (signed cfg only)                a        → hex / `P`
     nt_abs_sub (signed cfg only)                      a b      → hex / `P`
     nt_div_euclid nt_rem_euclid                       a b      → hex / `P`
-    nt_count_ones nt_leading_zeros nt_trailing_zeros  a        → decimal
+    nt_count_ones nt_count_zeros nt_leading_zeros nt_trailing_zeros  a → decimal
     nt_rotate_left nt_rotate_right                    a k      → hex
     nt_swap_bytes                                     a        → hex
     nt_unsigned_shr nt_signed_shr nt_unsigned_shl nt_signed_shl  a k → hex / `P`
@@ -27,8 +31,10 @@
     nt_is_zero nt_is_one                              a        → bool
     nt_from_str_radix                                 radix <hexbytes> → as Drive/C10
 
-  The model answers with the CURRENT tree (defects F4, F5 present) unless the two switches below are
-  flipped; after the `fix:` commits are applied to /repo set them to `true`.
+  Ops whose result depends on the build profile (so the harness must send the profile word, or keep
+  the inputs away from the overflow): gcd / lcm (only when the result is not representable),
+  nt_pow, nt_mul_add, nt_abs (`MIN`), nt_abs_sub (overflowing difference), the four PrimInt shifts
+  (amount `≥ BITS`).  Everything else is profile independent.
   Spec answers: `*` = left open by the property (gcd / lcm not representable, `MIN / -1`),
   `P|x` = alternatives.
 -/
@@ -37,13 +43,9 @@ import Bnum.Drive.C10
 import Bnum.Model.NumTraits
 import Bnum.Spec.NumTraits
 import Bnum.Spec.Shift
+import Bnum.Spec.Endian
 namespace Bnum.Drive.C18
 open Bnum Bnum.Drive Bnum.Spec
-
-/-- `true` once the F4 fix (signed `div_floor`/`mod_floor`/`div_rem`) is committed to /repo -/
-def fixedF4 : Bool := false
-/-- `true` once the F5 fix (`checked_pow` in the Newton step of `nth_root`) is committed to /repo -/
-def fixedF5 : Bool := false
 
 private def moV (c : Cfg) (o : Outcome (List Nat)) : String := showOut (showVal c) o
 private def moB (o : Outcome Bool) : String := showOut showBool o
@@ -83,39 +85,39 @@ def handle : Handler := fun c op0 args0 =>
   | "lcm", [sa, sb] => do
     let a ← parseVal c sa; let b ← parseVal c sb
     let l := NumT.lcmInt (valOf c a) (valOf c b)
-    let mo := if sg then (if fixedF4 then NumT.I.lcmFixed dbg w a b else NumT.I.lcm dbg w a b)
+    let mo := if sg then NumT.I.lcm dbg w a b
               else NumT.U.lcm dbg w a b
     some (moV c mo, if rep sg m l then toHex l else "*")
   | "div_floor", [sa, sb] => do
     let a ← parseVal c sa; let b ← parseVal c sb
     let x := valOf c a; let y := valOf c b
-    let mo := if sg then (if fixedF4 then NumT.I.divFloorFixed dbg w a b else NumT.I.divFloor dbg w a b)
+    let mo := if sg then NumT.I.divFloor dbg w a b
               else NumT.U.divFloor w a b
     some (moV c mo, if y = 0 then "P" else if divOverflow sg m x y then "*" else pat (Int.fdiv x y))
   | "mod_floor", [sa, sb] => do
     let a ← parseVal c sa; let b ← parseVal c sb
     let x := valOf c a; let y := valOf c b
-    let mo := if sg then (if fixedF4 then NumT.I.modFloorFixed dbg w a b else NumT.I.modFloor dbg w a b)
+    let mo := if sg then NumT.I.modFloor dbg w a b
               else NumT.U.modFloor w a b
     some (moV c mo, if y = 0 then "P" else if divOverflow sg m x y then "P|0" else pat (Int.fmod x y))
   | "div_rem", [sa, sb] => do
     let a ← parseVal c sa; let b ← parseVal c sb
     let x := valOf c a; let y := valOf c b
-    let mo := if sg then (if fixedF4 then NumT.I.divRemFixed dbg w a b else NumT.I.divRem dbg w a b)
+    let mo := if sg then NumT.I.divRem dbg w a b
               else NumT.U.divRem w a b
     some (moVV c mo, if y = 0 then "P" else if divOverflow sg m x y then "*"
       else "(" ++ pat (Int.tdiv x y) ++ "," ++ pat (Int.tmod x y) ++ ")")
   | "div_mod_floor", [sa, sb] => do
     let a ← parseVal c sa; let b ← parseVal c sb
     let x := valOf c a; let y := valOf c b
-    let mo := if sg then (if fixedF4 then NumT.I.divModFloorFixed dbg w a b else NumT.I.divModFloor dbg w a b)
+    let mo := if sg then NumT.I.divModFloor dbg w a b
               else NumT.U.divModFloor w a b
     some (moVV c mo, if y = 0 then "P" else if divOverflow sg m x y then "*"
       else "(" ++ pat (Int.fdiv x y) ++ "," ++ pat (Int.fmod x y) ++ ")")
   | "is_multiple_of", [sa, sb] => do
     let a ← parseVal c sa; let b ← parseVal c sb
     let x := valOf c a; let y := valOf c b
-    let mo := if sg then (if fixedF4 then NumT.I.isMultipleOfFixed dbg w a b else NumT.I.isMultipleOf dbg w a b)
+    let mo := if sg then NumT.I.isMultipleOf dbg w a b
               else NumT.U.isMultipleOf w a b
     some (moB mo, if y = 0 then "P|" ++ showBool (x == 0)
       else if divOverflow sg m x y then "P|true" else showBool (x % y == 0))
@@ -137,8 +139,7 @@ def handle : Handler := fun c op0 args0 =>
   | "nth_root", [sa, sk] => do
     let a ← parseVal c sa; let k ← sk.toNat?
     let x := valOf c a
-    let mo := if sg then (if fixedF5 then NumT.I.nthRootFixed dbg w a k else NumT.I.nthRoot dbg w a k)
-              else (if fixedF5 then NumT.U.nthRootFixed dbg w a k else NumT.U.nthRoot dbg w a k)
+    let mo := if sg then NumT.I.nthRoot dbg w a k else NumT.U.nthRoot dbg w a k
     some (moV c mo,
       if k = 0 then "P" else if x < 0 ∧ k % 2 = 0 then "P" else pat (NumT.rootInt k x))
   /- ---------------- arithmetic forwarders ---------------- -/
@@ -154,6 +155,31 @@ def handle : Handler := fun c op0 args0 =>
     let a ← parseVal c sa; let b ← parseVal c sb
     some (showOpt (showVal c) (if sg then NumT.I.checkedMul w a b else NumT.U.checkedMul w a b),
       showOpt toHex (checked sg m (valOf c a * valOf c b)))
+  | "checked_div", [sa, sb] => do
+    let a ← parseVal c sa; let b ← parseVal c sb
+    some (showOut (showOpt (showVal c)) (if sg then NumT.I.checkedDiv dbg w a b else NumT.U.checkedDiv w a b),
+      showOpt toHex (checkedDivLike sg m .tdiv (valOf c a) (valOf c b)))
+  | "checked_rem", [sa, sb] => do
+    let a ← parseVal c sa; let b ← parseVal c sb
+    some (showOut (showOpt (showVal c)) (if sg then NumT.I.checkedRem dbg w a b else NumT.U.checkedRem w a b),
+      showOpt toHex (checkedDivLike sg m .tmod (valOf c a) (valOf c b)))
+  | "checked_div_euclid", [sa, sb] => do
+    let a ← parseVal c sa; let b ← parseVal c sb
+    some (showOut (showOpt (showVal c))
+        (if sg then NumT.I.checkedDivEuclid dbg w a b else NumT.U.checkedDivEuclid w a b),
+      showOpt toHex (checkedDivLike sg m .ediv (valOf c a) (valOf c b)))
+  | "checked_rem_euclid", [sa, sb] => do
+    let a ← parseVal c sa; let b ← parseVal c sb
+    some (showOut (showOpt (showVal c))
+        (if sg then NumT.I.checkedRemEuclid dbg w a b else NumT.U.checkedRemEuclid w a b),
+      showOpt toHex (checkedDivLike sg m .emod (valOf c a) (valOf c b)))
+  | "checked_neg", [sa] => do
+    let a ← parseVal c sa
+    some (showOpt (showVal c) (if sg then NumT.I.checkedNeg w a else NumT.U.checkedNeg w a),
+      showOpt toHex (checked sg m (-(valOf c a))))
+  | "wrapping_neg", [sa] => do
+    let a ← parseVal c sa
+    some (showVal c (if sg then NumT.I.wrappingNeg w a else NumT.U.wrappingNeg w a), pat (-(valOf c a)))
   | "wrapping_add", [sa, sb] => do
     let a ← parseVal c sa; let b ← parseVal c sb
     some (showVal c (if sg then NumT.I.wrappingAdd w a b else NumT.U.wrappingAdd w a b),
@@ -224,7 +250,26 @@ def handle : Handler := fun c op0 args0 =>
     let a ← parseVal c sa; let b ← parseVal c sb
     let x := valOf c a; let y := valOf c b
     some (moV c (NumT.I.absSub dbg w a b), if x ≤ y then "0" else opRes (x - y))
+  | "is_positive", [sa] =>
+    if !sg then none else do
+    let a ← parseVal c sa
+    some (showBool (NumT.I.isPositive w a), showBool (decide (0 < valOf c a)))
+  | "is_negative", [sa] =>
+    if !sg then none else do
+    let a ← parseVal c sa
+    some (showBool (NumT.I.isNegativeT w a), showBool (decide (valOf c a < 0)))
   /- ---------------- PrimInt ---------------- -/
+  | "count_zeros", [sa] => do
+    let a ← parseVal c sa
+    some (toString (if sg then NumT.I.countZeros w a else NumT.U.countZeros w a),
+      toString (Spec.countZeros bits (U w a)))
+  | "to_be", [sa] => do
+    let a ← parseVal c sa
+    some (showVal c (if sg then NumT.I.toBe true (w / 8) a else NumT.U.toBe true (w / 8) a),
+      toHex (Spec.Endian.swapPattern (n * (w / 8)) (U w a)))
+  | "to_le", [sa] => do
+    let a ← parseVal c sa
+    some (showVal c (if sg then NumT.I.toLe true (w / 8) a else NumT.U.toLe true (w / 8) a), toHex (U w a))
   | "count_ones", [sa] => do
     let a ← parseVal c sa
     some (toString (if sg then NumT.I.countOnes w a else NumT.U.countOnes w a),
